@@ -26,6 +26,11 @@ impl Default for NetCfg {
 /// Installs an EPMD stub that answers ALIVE2_REQ (creation) and PORT2_REQ
 /// (port of `peer_alive`, "not found" otherwise). Conforming; never stalls.
 pub fn install_epmd(world: &Arc<World>, creation: u32, peer_alive: &str, peer_port: u16, x_resp: bool) {
+    install_epmd_slow(world, creation, peer_alive, peer_port, x_resp, 0)
+}
+
+/// `lookup_delay_ms`: how long the daemon takes to answer a port lookup (a loaded or distant EPMD).
+pub fn install_epmd_slow(world: &Arc<World>, creation: u32, peer_alive: &str, peer_port: u16, x_resp: bool, lookup_delay_ms: u64) {
     let peer_alive = peer_alive.to_string();
     world.listen(
         EPMD_ADDR,
@@ -64,6 +69,10 @@ pub fn install_epmd(world: &Arc<World>, creation: u32, peer_alive: &str, peer_po
                     }
                     122 => {
                         w2.stat("epmd.port2");
+                        if lookup_delay_ms > 0 {
+                            w2.stat("fault.epmd_slow_lookup");
+                            tokio::time::sleep(std::time::Duration::from_millis(lookup_delay_ms)).await;
+                        }
                         let name = &body[1..];
                         let mut resp = vec![119u8];
                         if name == peer_alive.as_bytes() {
